@@ -75,6 +75,10 @@ func vfHistories(env *vfc.Env, prefix string, extra func(c *vfHistCase, sut *vfS
 	vfQuiet()
 	res := env.Res
 	rnd := ref.NewRand(env.Seed)
+	if a.Cfg.BodyMax > 0 && int64(a.MaxVal) > a.Cfg.BodyMax {
+		// a value above body_max never reaches the store: the protocol layer refuses it
+		a.MaxVal = int(a.Cfg.BodyMax)
+	}
 	for h := 0; h < a.Histories; h++ {
 		id := fmt.Sprintf("h%d", h)
 		r := rnd.Split(uint64(h))
